@@ -45,7 +45,7 @@ def make_pool(rng, size):
                 gd = games.gen_class(rng, cls)
                 if gd is not None:
                     an = analysis.Analysis(gd)
-                    if not (an.stopping and an.finals_absorbing and max(an.tmax) < 200):
+                    if not (an.stopping and an.finals_absorbing and max(an.tmax) < 50):
                         gd = None
             kind = "unsolvable" if 0 not in an.W else "solvable"
             pool.append((names[i], kind, games.to_solver(gd)))
@@ -55,7 +55,7 @@ def make_pool(rng, size):
                 from .c06 import gen_cut
                 gd = gen_cut(rng)
                 an = analysis.Analysis(gd)
-                if not (an.stopping and an.finals_absorbing and max(an.tmax) < 200):
+                if not (an.stopping and an.finals_absorbing and max(an.tmax) < 50):
                     gd = None
             kind = "unsolvable" if 0 not in an.W else "solvable"
             pool.append((names[i], kind, games.to_solver(gd)))
@@ -195,7 +195,7 @@ def check_batch(order, pool_by_name, solo, twice=False):
     if twice:
         # the very same dict object is run a second time (it now carries the prune_states keys the first run added)
         try:
-            with monitors.budget(2 * 10 ** 8):
+            with monitors.budget(8 * 10 ** 6 * max(1, len(order))):
                 cr.run_games(d)
         except BaseException:    # noqa - judged on the second run below
             pass
@@ -203,7 +203,7 @@ def check_batch(order, pool_by_name, solo, twice=False):
             monitors.MON.metering = False
     problems = []
     try:
-        with monitors.budget(2 * 10 ** 8):
+        with monitors.budget(8 * 10 ** 6 * max(1, len(order))):
             res = cr.run_games(d)
     except monitors.StepBudgetExceeded:
         return None
